@@ -65,7 +65,7 @@ impl Prop for C01 {
 
     fn rule() -> String {
         "proptest histories over (bucket count n, bucket width t, vec(Add(kind)|Cancel|CancelAtCurrent|Fetch|CancelFetched)) with add times built \
-         relative to the model's current time (ties, bucket edges +-1ns, whole-year multiples, outliers), always ended by a full drain; oracle = \
+         relative to the model's current time (ties, bucket edges +-1ns, whole-year multiples, outliers, timestamps beyond 2^64 ns, bursts of 65..104 adds at the current time), refused fetch_next_if calls, always ended by a full drain; oracle = \
          independent pending-multiset model (len, min-time, exactly-once, timestamp, cancelled-never-returned) + structural invariants of the hook \
          snapshot after ops. A case is non-trivial iff it cancels a pending event after at least one fetch, or adds/cancels an event whose time \
          equals the current (last fetched, non-initial) time, or a fetch crosses a whole calendar year; distinct = distinct serialised case."
